@@ -7,6 +7,7 @@
 //! * `alloc`          — counting global allocator
 //! * `oracle`         — the C38 oracle over a byte string
 //! * `roundtrip`      — expected decode result of writer-made models
+//! * `strict`         — independent strict wire-format checker (every Ok decode must be well-formed)
 //!
 //! `fuzz_entry_*` are what the libFuzzer targets in /verif/fuzz call; they are
 //! the same oracle the proptest sub-checks use.
@@ -18,6 +19,7 @@ pub mod onnxw;
 pub mod oracle;
 pub mod reader;
 pub mod roundtrip;
+pub mod strict;
 pub mod wire;
 
 use std::path::PathBuf;
